@@ -59,7 +59,7 @@ def _nanlist(a):
     return [None if (isinstance(x, float) and x != x) else x for x in a]
 
 
-def gen_cfg(rng, kind, nsub, aggs="one", max_cells=700, shapes=None, rows=None):
+def gen_cfg(rng, kind, nsub, aggs="one", max_cells=700, shapes=None, rows=None, extent=None):
     """A cube of `kind` with `nsub` sub-cubes.  aggs: "one" (a single random aggregate), "all" (every
     aggregate the cube type has, together) or "some" (2..4 together).  `shapes` (extra-axis shapes per
     dimension) and `rows` (a (lo, hi) range for N) override the small defaults: the 'scale' configurations
@@ -73,6 +73,8 @@ def gen_cfg(rng, kind, nsub, aggs="one", max_cells=700, shapes=None, rows=None):
             shapes = gen_layout(rng, nsub, max_dims=1 if big else (2 if aggs != "one" else 3))
         ndims = len(shapes)
         ext = 2 if (big or ndims > 1 or rng.random() < 0.6) else 3
+        if extent is not None:
+            ext = extent
         N = rng.choice([1, 2, 3, 4, 5, 6, 8]) if rows is None else rng.randint(rows[0], rows[1])
         dims = []
         for s in shapes:
